@@ -191,6 +191,31 @@ func replayFile(path string, e *emitter) {
 				dec := shadow[f[1]].decide(rq)
 				f[5] = dec
 				e.emit(strings.Join(f, "\t"), runRequest(mws[f[1]], rq)+"\t||\t"+dec)
+			case "intent":
+				c := decConfig(f[1])
+				m, err := cors.NewMiddleware(*c)
+				if err != nil {
+					e.emit(line, "cfgerr")
+					return
+				}
+				m.SetDebug(f[3] == "1")
+				origin, method, names, pna, lines := decBytes(f[4]), decBytes(f[5]), decList(f[6]), f[8] == "1", decList(f[9])
+				bm := browserMethod(method)
+				unsafe := lowerSortedUnique(names)
+				pre := "-"
+				if !(bm == "GET" || bm == "HEAD" || bm == "POST") || len(unsafe) > 0 || pna {
+					rq := request{method: "OPTIONS", hdrs: []kv{{"Origin", []string{origin}}, {"Access-Control-Request-Method", []string{bm}}}}
+					if len(unsafe) > 0 {
+						rq.hdrs = append(rq.hdrs, kv{"Access-Control-Request-Headers", lines})
+					}
+					if pna {
+						rq.hdrs = append(rq.hdrs, kv{"Access-Control-Request-Private-Network", []string{"true"}})
+					}
+					pre = recordResp(m, rq)
+				}
+				f[10] = pre
+				f[11] = recordResp(m, request{method: bm, hdrs: []kv{{"Origin", []string{origin}}}})
+				e.emit(strings.Join(f, "\t"), "agree")
 			case "pair":
 				switch f[1] {
 				case "C10":
